@@ -22,6 +22,7 @@ def parseCsv (s : String) : Option (List Nat) :=
 
 def dstepLine (s : DState) (toks : List String) : DState × String :=
   match toks with
+  | [_, "codec", _] => (s, "ok")   -- codec flavour of the harness (allocating / scratch buffers): no semantic content
   | "tv" :: rest => let (tv', o) := stepLine s.tv rest; ({ s with tv := tv' }, o)
   | "tp" :: rest => let (tp', o) := rstepLine s.tp rest; ({ s with tp := tp' }, o)
   | "ts" :: rest => let (ts', o) := sstepLine s.ts rest; ({ s with ts := ts' }, o)
@@ -29,6 +30,12 @@ def dstepLine (s : DState) (toks : List String) : DState × String :=
     match final.toNat?, parseCsv incs, parseCsv gets with
     | some f, some i, some g => (s, Conc.counterWhy i f g)
     | _, _, _ => (s, "bad-op")
+  | ["conc", "gate", init, final, kinds, ws, ss] =>
+    match init.toNat?, final.toNat?, parseCsv kinds, parseCsv ws, parseCsv ss with
+    | some i, some f, some k, some w, some sn =>
+      (s, if k.length == w.length && w.length == sn.length && Conc.serialOk i (Conc.zipG k w sn) f then "accept"
+          else "reject no-serial-order-explains-the-observations")
+    | _, _, _, _, _ => (s, "bad-op")
   | ["conc", "wide", n, gets] =>
     match n.toNat?, parseCsv gets with
     | some n, some g => (s, if Conc.wideOk n g then "accept" else "reject reader-saw-unwritten-value")
